@@ -11,7 +11,7 @@
     - [p_many_eq_nat]: the element loop equals the structural loop on [N.to_nat count];
     - [wf_artifactb_iff]: the boolean well-formedness check decides [wf_artifact]. *)
 From Coq Require Import ZArith NArith List Bool Lia Setoid.
-From CB Require Import Wasm.Syntax Wasm.Leb128 Wasm.Leb128Proofs Wasm.Leb128Signed Wasm.ArtifactCodec.
+From CB Require Import Wasm.Syntax Wasm.Leb128 Wasm.Leb128Proofs Wasm.ArtifactLeb Wasm.ArtifactCodec.
 Import ListNotations.
 Local Open Scope N_scope.
 
